@@ -70,6 +70,13 @@ impl Documentation {
 
         for line in doc.lines().skip_while(|x| x.is_empty()) {
             let docstring = line.get(indent..).unwrap_or_default().trim_end();
+            // The text lands in a block comment of the target language: a `/*` in it would
+            // be a comment opener inside a comment (-Wcomment, an error under -Werror).
+            let docstring = match style {
+                DocumentationStyle::Rust => docstring.to_string(),
+                DocumentationStyle::C | DocumentationStyle::Java => docstring.replace("/*", "/ *"),
+            };
+            let docstring = docstring.as_str();
 
             documentation += style.prefix();
             match docstring.chars().next() {
